@@ -86,6 +86,156 @@ def nice_reals():
     return v
 
 
+
+# ---- directed classes: information carried in the low / high bits of an intermediate ---------------------------
+#
+# Random and boundary sampling reaches "a remainder is zero / non-zero" but not "the remainder is non-zero only in
+# its high (or only in its low) bits".  Each class below builds values for which one intermediate of the pipeline
+# has that structure, so a truncation of the intermediate (a 32-bit accumulator, a test of one word only, ...)
+# changes the printed digits.
+
+TIE_HEADS = [2, 25, 15, 45, 65, 85, 35, 105, 125, 995, 985, 1005, 12345, 99995, 100005, 4444445, 7654325]
+STICKY_SHIFTS = [1, 8, 16, 24, 31, 32, 33, 40, 48]
+
+
+def _tie_qs(limit):
+    """kept digits followed by the tie digit: ...e5 and ...o5 of several lengths, below `limit`"""
+    out = []
+    for q in TIE_HEADS:
+        if q % 10 != 5:
+            q = q * 10 + 5
+        if q < limit:
+            out.append(q)
+    return out
+
+
+def sticky_drop_values(rng, thorough, mant_bits=53):
+    """Integer side (`bigIntDropDigits`): v = (q*5^d + j*2^k) * 2^(d+t).  Dropping d decimal digits divides
+    q*5^d + j*2^k by 5^d: quotient q (a decimal tie ...5 at precision digits(q)-1), remainder j*2^k whose low k bits
+    are zero.  The value is strictly above the tie, so it must round up; a sticky flag that looks at the low
+    32 (16, 8, ...) bits of the remainder only sees a tie and rounds to even."""
+    top = 1 << mant_bits
+    ds = range(1, 23) if thorough else [1, 2, 3, 5, 8, 11, 13, 14, 15, 16, 17, 18, 20, 22]
+    vals = []
+    for d in ds:
+        p5 = 5 ** d
+        for q in _tie_qs(top // p5 + 1):
+            base = q * p5
+            if base >= top:
+                continue
+            for k in STICKY_SHIFTS:
+                js = ([1, 2, 3, 5, 7] if thorough else [1, 3]) + [rng.randrange(1, 1 << 12) for _ in range(3 if thorough else 1)]
+                for j in js:
+                    r = j << k
+                    if r >= p5 or base + r >= top:
+                        continue
+                    for t in ((0, 1, 3, 11) if thorough else (rng.choice([0, 0, 1, 2, 7]),)):
+                        vals.append((base + r) << (d + t))
+            # the exact tie and the largest remainder, for contrast
+            vals += [base << d, (base + min(p5 - 1, top - base - 1)) << d]
+    return vals
+
+
+def sticky_fraction_values(rng, thorough, mant_bits=53):
+    """Fraction side: a decimal tie that is exactly representable (n / 2^m: its expansion ends in 5) plus or minus
+    one far bit: x * (1 +- 2^-k).  The discarded part of the expansion is then non-zero only far below the rounding
+    digit (k = 24, 31, 32, 33, 40, 48, 52: across the 32- and 64-bit word boundaries of the BigInt)."""
+    import math
+    vals = []
+    ms = range(1, 21) if thorough else [1, 2, 3, 4, 6, 9, 12, 16, 20]
+    for m in ms:
+        ns = [1, 3, 5, 7, 9, 11, 25, 125, 1023, 2 ** m - 1, 2 ** m + 1, 3 * 2 ** m + 1, 10 * 2 ** m + 5] + \
+             [rng.randrange(1, 1 << (m + 7)) | 1 for _ in range(6 if thorough else 2)]
+        if not thorough:
+            ns = ns[::2]
+        for n in ns:
+            x = n / 2.0 ** m
+            mant, ex = math.frexp(x)
+            for k in [24, 31, 32, 33, 40, 48, mant_bits - 2, mant_bits - 1]:
+                if k >= mant_bits:
+                    continue
+                bit = math.ldexp(1.0, ex - 1 - k)
+                for y in (x + bit, x - bit, x + 3 * bit):
+                    if y > 0:
+                        vals.append(y)
+            vals.append(x)
+    return vals
+
+
+def word_boundary_values(rng, thorough):
+    """Integer-valued doubles mant * 2^s whose set bits sit at the 32- and 64-bit word boundaries of the BigInt
+    after the left shift: mantissas with bits at positions 0, 31, 32, 33, 52 and shifts around multiples of 64."""
+    mants = [1 << 52, (1 << 53) - 1, (1 << 52) + 1, (1 << 52) + (1 << 32), (1 << 52) + (1 << 31), (1 << 52) + (1 << 32) - 1,
+             (1 << 52) + (1 << 33) + 1, ((1 << 21) - 1) << 32, (((1 << 21) - 1) << 32) + 1, (1 << 52) + ((1 << 32) - 1)]
+    shifts = []
+    for w in range(0, 16):
+        for dlt in (-1, 0, 1, 11, 12, 31, 32, 33):
+            sft = 64 * w + dlt
+            if 0 <= sft <= 971:
+                shifts.append(sft)
+    if not thorough:
+        shifts = shifts[::3] + rng.sample(shifts, 12)
+    vals = []
+    for sft in shifts:
+        for mnt in (mants if thorough else rng.sample(mants, 4)):
+            vals.append(mnt << sft)
+    return vals
+
+
+def chunk_remainder_values(rng, thorough):
+    """`bigIntToString` divides by 10^19 repeatedly; each remainder becomes 19 digits.  Values mant * 2^s for
+    which a remainder is non-zero with its low 32 bits zero (and ones that are below 2^32), found by search."""
+    vals = []
+    tries = 60000 if thorough else 9000
+    P = 10 ** 19
+    for s_ in ([40, 64, 90, 130, 200, 400, 700] if thorough else [64, 130, 400]):
+        found = 0
+        for _ in range(tries):
+            mnt = rng.getrandbits(52) | (1 << 52)
+            n = mnt << s_
+            hit = False
+            while n:
+                n, r = divmod(n, P)
+                if r and (r % (1 << 32) == 0 or r < (1 << 32)):
+                    hit = True
+                    break
+            if hit:
+                vals.append(mnt << s_)
+                found += 1
+                if found >= (12 if thorough else 4):
+                    break
+    return vals
+
+
+def directed_doubles(rng, thorough):
+    out = []
+    ints = sticky_drop_values(rng, thorough) + word_boundary_values(rng, thorough) + chunk_remainder_values(rng, thorough)
+    for n in ints:
+        x = float(n)
+        if int(x) == n:
+            out.append(d2b(x))
+            if rng.random() < (1.0 if thorough else 0.25):
+                out.append(d2b(-x))
+    for y in sticky_fraction_values(rng, thorough):
+        out.append(d2b(y))
+        if rng.random() < 0.15:
+            out.append(d2b(-y))
+    return _dedupe(out)
+
+
+def directed_floats(rng, thorough):
+    out = []
+    for n in sticky_drop_values(rng, thorough, mant_bits=24):
+        x = float(n)
+        if fits_float(x) and b2f(f2b(x)) == x:
+            out.append(f2b(x))
+            out.append(f2b(-x))
+    for y in sticky_fraction_values(rng, thorough, mant_bits=24):
+        if fits_float(y) and b2f(f2b(y)) == y:
+            out.append(f2b(y))
+    return _dedupe(out)
+
+
 def double_values(rng, thorough):
     """bit patterns: (label, [bits])"""
     groups = []
@@ -138,6 +288,7 @@ def double_values(rng, thorough):
     groups.append(("nice", nice))
     rnd = [rng.getrandbits(64) for _ in range(60000 if thorough else 3000)]
     groups.append(("uniform", rnd))
+    groups.append(("directed-sticky", directed_doubles(rng, thorough)))
     return [(g, _dedupe(v)) for g, v in groups]
 
 
@@ -170,6 +321,7 @@ def float_values(rng, thorough):
         nice = nice[::6] + rng.sample(nice, min(len(nice), 500))
     groups.append(("nice", nice))
     groups.append(("uniform", [rng.getrandbits(32) for _ in range(20000 if thorough else 1200)]))
+    groups.append(("directed-sticky", directed_floats(rng, thorough)))
     return [(g, _dedupe(v)) for g, v in groups]
 
 
